@@ -482,7 +482,7 @@ func (sc *StreamScenario) J(withBytes bool) M {
 			}
 			units = append(units, M{"u": u.U, "evs": evs})
 		}
-		files = append(files, M{"name": B(f.Name), "base": u32s(f.Base), "first": u32s(f.Base + 4), "units": units})
+		files = append(files, M{"name": B(f.Name), "base": u32s(f.Base), "first": u32s(f.Base + 4), "units": units, "prev": f.Prev != nil})
 	}
 	atts := []M{}
 	for _, a := range sc.Attempts {
